@@ -243,6 +243,39 @@ func c01(p *core.Program, r *core.Report) {
 		}
 	}
 
+	// ... and the other way round: a function that stores the layout of a geometry stores its stride too
+	for _, fn := range geomFns {
+		for _, b := range fn.Blocks {
+			for _, in := range b.Instrs {
+				st, ok := in.(*ssa.Store)
+				if !ok {
+					continue
+				}
+				fa, isFA := st.Addr.(*ssa.FieldAddr)
+				if !isFA || namedTypeName(fa.X.Type().Underlying().(*types.Pointer).Elem()) != "geom0" {
+					continue
+				}
+				base, path := fieldRoot(st.Addr)
+				if !strings.HasSuffix(path, ".layout") {
+					continue
+				}
+				prefix := strings.TrimSuffix(path, ".layout")
+				has := false
+				for _, b2 := range fn.Blocks {
+					for _, in2 := range b2.Instrs {
+						if st2, ok := in2.(*ssa.Store); ok {
+							b2base, p2 := fieldRoot(st2.Addr)
+							if b2base == base && p2 == prefix+".stride" {
+								has = true
+							}
+						}
+					}
+				}
+				r.Check(has, r3, short(fn)+"/store-layout", p.Pos(st.Pos()), true, "the stride is stored alongside the layout", "the layout of a geometry is stored at "+p.Pos(st.Pos())+" and its stride is not: the geometry then has a layout whose dimension its stride does not match (an adopted layout with stride 0 divides by zero in Coords)")
+			}
+		}
+	}
+
 	// ---- rule 4: ends bookkeeping uses the post-append length
 	const r4 = "ends-post-append"
 	r.Rule(r4, "every value appended to an ends slice in package geom is len(F) of the flat array, and no growth of that flat array (append / deflate) can follow it within the same loop iteration: the recorded end is the length after the part was added", 3)
